@@ -75,6 +75,8 @@ pub fn history_formula_with(literals: bool) -> BoxedStrategy<String> {
         1 => r().prop_map(move |a| if literals { format!("={a}#") } else { format!("=ABS({a})") }),
         1 => Just("=UNKNOWNFN(1)".to_string()),
         1 => Just("=1+".to_string()),
+        // typed without the closing parenthesis: the engine completes the formula
+        1 => prop_oneof![rg().prop_map(|a| format!("=SUM({a}")), r().prop_map(|a| format!("=ABS({a}*2"))],
     ]
     .boxed()
 }
